@@ -49,8 +49,9 @@ type OuterAfter struct {
 }
 
 type PInner struct {
-	X string
-	Y int
+	X    string
+	Y    int
+	Next *PInner // nil: a promoted field of pointer type holding nil is a value (nil), not a dereference
 }
 type POuter struct {
 	*PInner
